@@ -184,6 +184,10 @@ def make (c):
                 rmax = max (g ['r'] for g in geo) * max ([s [0] for s in spec.get ('sc') or [[1.0]]] + [1.0])
                 loads.append (dict (k = 'ins', radius = float (rmax * rng.uniform (1.3, 3)), eps = float (rng.uniform (1.2, 5)), tag = t))
     spec ['loads'] = loads
+    if rng.random () < 0.3:
+        # a load attached pulse by pulse to all pulses of one object but one (resolved in check (),
+        # where the number of pulses of the object is known)
+        spec ['partial'] = dict (tag = int (rng.choice (alltags)), skip = str (rng.choice (['first', 'last'])), z = [float (10 ** rng.uniform (0, 2)), float (rng.uniform (-50, 50))])
     spec ['style'] = style
     spec ['attach_shuffle'] = int (rng.integers (0, 1000))
     return gen.clean (spec)
@@ -266,6 +270,14 @@ def close (a, b, rel):
 
 def check (c):
     spec = c if 'geo' in c else make (c)
+    if spec.get ('partial'):
+        pa = spec.pop ('partial')
+        m0 = common.build_argv (gen.to_argv (dict (spec, loads = [])))
+        w  = {g.tag: g for g in m0.geo}.get (pa ['tag'])
+        if w is not None and len (w.pulses) >= 3:
+            ks = list (range (1, len (w.pulses) + 1))
+            ks.remove (1 if pa ['skip'] == 'first' else len (w.pulses))
+            spec ['loads'] = [dict (k = 'z', z = pa ['z'], att = [[k, pa ['tag']] for k in ks])] + spec ['loads']
     argv = argv_of (spec)
     viol = []
     mon  = {}
